@@ -185,6 +185,7 @@ def run(P, R, tier):
 
     consume_rules(P, R, K)
     range_rule(P, R, K)
+    defer_rule(P, R)
     cell_rule(P, R, K)
     copy_rules(P, R, K, tab)
     component_rules(P, R, K, tab)
@@ -295,6 +296,37 @@ def range_rule(P, R, K):
             else:
                 R.violation("C14.range", inst, "the range of %s is expanded with Rxn_copies but the source entry keeps its range end: every later pass copies entry %s over the "
                             "rest of the range again (deleted entries reappear, modified ones are overwritten)" % (owner, nkey), file=f["file"], line=c[1], function=f["q"])
+
+
+def defer_rule(P, R):
+    """DELETE -cells n names entry n of EVERY kind.  In StorageBinList::Read a kind-wide option line ("-equilibrium_phases"
+    without numbers) is stored as "defined, no numbers" = all, and does not clear numbers already present.  The cell numbers
+    must therefore be spread over the kinds only after all option lines have been read (after the option loop); spreading them
+    while reading makes `-cells 2` followed by a kind-wide line delete only entry 2 of that kind."""
+    R.rule("C14.defer", "StorageBinList::Read spreads the -cells numbers over all kinds after the option loop, not while reading", minimum=1)
+    f = P.one("StorageBinList::Read")
+    where = dict(file=f["file"], function=f["q"])
+    loops = [x for x in f["body"][2] if T.is_node(x) and x[0] in ("For", "While", "Do")]
+    if not loops:
+        R.anchor_missing("C14.defer", "StorageBinList::Read: option loop not found")
+        return
+    lp = loops[0]
+    inside = [c for c in T.calls(lp) if T.callee_name(c) in ("TransferAll",)]
+    after = []
+    seen = False
+    for st in f["body"][2]:
+        if st is lp:
+            seen = True
+            continue
+        if seen and T.is_node(st):
+            after += [c for c in T.calls(st) if T.callee_name(c) == "TransferAll"]
+    if inside:
+        R.violation("C14.defer", "StorageBinList::Read", "the cell numbers are spread over the kinds inside the option loop (line %d): the result of a DELETE block depends on the order of its "
+                    "option lines, and `-cells n` before a kind-wide line removes only entry n of that kind" % inside[0][1], line=inside[0][1], **where)
+    elif after:
+        R.ok("C14.defer", "StorageBinList::Read", "TransferAll after the option loop (line %d)" % after[0][1])
+    else:
+        R.anchor_missing("C14.defer", "StorageBinList::Read: TransferAll call not found")
 
 
 def re_save(name):
